@@ -20,7 +20,7 @@ EV = CORE + "evaluator::Evaluator::"
 EXPRKIND = CORE + "ast::expr::ExprKind"
 AST_BUILDER = CORE + "ast::expr::ExprBuilder<T>"
 SKIP = ("val", "unknown", "new", "source_loc", "expr_kind", "clone", "with_maybe_source_loc", "into_expr_kind", "data", "is_ref", "is_ref_set",
-        "slots", "subexpressions", "record_arc", "try_type_of", "is_projectable", "eq_shape", "hash_shape", "substitute", "substitute_typed")
+        "slots", "subexpressions", "record_arc", "try_type_of", "is_projectable", "eq_shape", "hash_shape", "substitute", "substitute_typed", "substitute_general")
 # child that may legitimately be replaced by a literal constant in a rebuilt node
 CONST_OK = {("And", "left"), ("Or", "left"), ("BinaryApp", "arg2"), ("BinaryApp", "arg1")}
 
@@ -123,3 +123,27 @@ def check(chk, facts, rule):
     chk.ob(rule, "residuals-are-rebuilt", not bare and nres >= 8,
            "%d PartialValue::Residual values are built in partial_interpret_internal; each wraps the result of an AST constructor%s" % (nres, "" if not bare else ", except %s (a bare child residual drops the operator)" % bare),
            where=f.where(bare[0][0] if bare else None), fn=f.name, key="%s:bare-residual" % rule, sample={"residual_values": nres})
+
+
+def check_substitute(chk, facts, rule="C13.SUBST"):
+    """Expr::substitute_general (behind substitute / substitute_typed, used by reauthorize): every arm rebuilds the same node kind with
+    each child substituted in its own position, and every expression child of every variant goes through the recursive substitution."""
+    from lib import traverse
+    name = CORE + "ast::expr::Expr::substitute_general"
+    f = get_fn(chk, facts, rule, name)
+    if f is None:
+        return
+    bm = hom.builder_map(facts, AST_BUILDER, ("ast::expr::ExprKind",))
+    ev = hom.arm_events(facts, f, "ast::expr::ExprKind", ctor)
+    r = facts.adts.get(EXPRKIND)
+    if ev is None or r is None:
+        chk.lost(rule, "match on ExprKind in substitute_general")
+        return
+    total = 0
+    for vi, arm in sorted(ev["arms"].items()):
+        vn = r["variants"][vi]["name"]
+        fields = [x[0] for x in r["variants"][vi]["fields"] if "ast::expr::Expr<" in x[1]]
+        total += check_events(chk, rule, facts, f, vn, arm["events"], bm, fields)
+    chk.floor(rule, "rebuilding constructor sites", total, 9)
+    sink = lambda c, t: c == name
+    traverse.check(chk, rule + ".traverse", facts, f, EXPRKIND, "ast::expr::ExprKind", ("ast::expr::Expr<", "Arc<cedar_policy_core::ast::expr::Expr", "ast::expr::Expr>"), sink, floor=12, name="substitute")
